@@ -324,10 +324,141 @@ func (g *gstate) boundaryStep(n int) {
 	}
 }
 
+// stateStep: hard-state-only saves in a row, each derived from the last saved
+// state: identical (the skip branch), lower / higher / equal commit with the
+// same term and vote, changed vote, changed term. The store must report the
+// last one saved, whatever its commit value.
+func (g *gstate) stateStep(n int) {
+	nd := &g.ref.nodes[n]
+	cur := hstate{Term: maxu(g.term[n], 1), Vote: uint64(g.r.Intn(4)), Commit: nd.marker + uint64(g.r.Intn(len(nd.ents)+1))}
+	if nd.st != nil && g.r.Chance(3, 4) {
+		cur = *nd.st
+	}
+	k := 2 + g.r.Intn(3)
+	for i := 0; i < k; i++ {
+		switch g.r.Intn(7) {
+		case 0: // identical
+		case 1, 2: // commit goes down
+			if cur.Commit > 0 {
+				cur.Commit -= 1 + uint64(g.r.Intn(int(min64(cur.Commit, 20))))
+			}
+		case 3:
+			cur.Commit += 1 + uint64(g.r.Intn(20))
+		case 4:
+			cur.Vote = (cur.Vote + 1 + uint64(g.r.Intn(3))) % 5
+		case 5:
+			cur.Term += 1 + uint64(g.r.Intn(2))
+		default:
+			cur.Term += uint64(g.r.Intn(2))
+			cur.Commit = uint64(g.r.Intn(int(min64(nd.last(), 1000)) + 2))
+		}
+		if cur.empty() {
+			cur.Term = 1
+		}
+		if cur.Term > g.term[n] {
+			g.term[n] = cur.Term
+		}
+		if g.emit(op{Kind: "SAVE", Ups: []update{{N: n, St: cur}}}) {
+			g.nmuts++
+			g.ops = append(g.ops, op{Kind: "RRS", N: n, A: nd.marker})
+			if g.r.Chance(1, 5) {
+				g.emit(op{Kind: "REOPEN"})
+				g.ops = append(g.ops, op{Kind: "RRS", N: n, A: nd.last()})
+			}
+		}
+	}
+}
+
+// recreateStep: the replica has a log, its data is removed, and the same
+// (shard, replica) joins again from a snapshot at S chosen around the OLD log
+// (inside it, at its end, beyond it), appends S+1.. and is then asked for ranges
+// below, across and at S, before and after a reopen. Nothing of the removed
+// incarnation may come back.
+func (g *gstate) recreateStep(n int) {
+	nd := &g.ref.nodes[n]
+	if len(nd.ents) == 0 {
+		u := update{N: n, I0: nd.last() + 1}
+		u.Ents = g.mkEnts(n, u.I0, g.count(), false)
+		g.maybeState(n, &u)
+		if !g.emit(op{Kind: "SAVE", Ups: []update{u}}) {
+			return
+		}
+		g.nmuts++
+	}
+	oldFirst, oldLast := nd.marker+1, nd.last()
+	if g.r.Chance(1, 4) {
+		g.emit(op{Kind: "REOPEN"})
+	}
+	if !g.emit(op{Kind: "REMNODE", N: n}) {
+		return
+	}
+	g.nmuts++
+	g.term[n] = 0
+	if g.r.Chance(1, 4) {
+		g.emit(op{Kind: "REOPEN"})
+	}
+	var s uint64
+	switch g.r.Intn(5) {
+	case 0:
+		s = oldLast
+	case 1:
+		s = oldLast + uint64(1+g.r.Intn(60))
+	case 2:
+		s = (oldLast/g.bs)*g.bs + uint64(g.r.Intn(int(g.bs))) // inside the old last batch
+	default:
+		s = oldFirst + uint64(g.r.Intn(int(oldLast-oldFirst+1)))
+	}
+	if s == 0 {
+		s = 1
+	}
+	t := uint64(1 + g.r.Intn(3))
+	g.term[n] = t
+	u := update{N: n, Ss: snap{Index: s, Term: t, Tag: g.nextTag()}, St: hstate{Term: t, Vote: uint64(g.r.Intn(4)), Commit: s}}
+	if g.r.Chance(4, 5) {
+		k := g.count()
+		if g.big && k > 6 {
+			k = 6
+		}
+		u.I0 = s + 1
+		u.Ents = g.mkEnts(n, s+1, k, false)
+	}
+	if !g.emit(op{Kind: "SAVE", Ups: []update{u}}) {
+		return
+	}
+	g.nmuts++
+	ask := func() {
+		big := ^uint64(0)
+		qs := [][2]uint64{{1, s + 1}, {s, nd.last() + 1}, {oldFirst, oldLast + 2}}
+		if s > 2 {
+			qs = append(qs, [2]uint64{s - 1, s + 3}, [2]uint64{1 + uint64(g.r.Intn(int(s-1))), s + uint64(g.r.Intn(4))})
+		}
+		for _, q := range qs {
+			if q[0] <= q[1] {
+				g.ops = append(g.ops, op{Kind: "Q", N: n, A: q[0], B: q[1], C: big})
+			}
+		}
+		g.ops = append(g.ops, op{Kind: "RRS", N: n, A: s}, op{Kind: "GS", N: n})
+		g.queries(n)
+	}
+	ask()
+	if g.r.Chance(2, 3) {
+		g.emit(op{Kind: "REOPEN"})
+		ask()
+	}
+}
+
 func (g *gstate) step() {
 	n := g.pickNode()
 	if g.r.Chance(1, 12) {
 		g.boundaryStep(n)
+		return
+	}
+	if g.r.Chance(1, 12) {
+		g.stateStep(n)
+		return
+	}
+	if g.r.Chance(1, 14) {
+		g.recreateStep(n)
 		return
 	}
 	nd := &g.ref.nodes[n]
